@@ -162,6 +162,41 @@ def mc_socket(net, ns, ifname, ifaddr, port):
         net.leave()
 
 
+ETH_P_1588 = 0x88F7
+PTP_MAC = bytes([0x01, 0x1B, 0x19, 0x00, 0x00, 0x00])
+
+
+class EthSock:
+    """raw layer-2 PTP socket (ethertype 0x88f7) on one interface inside a namespace, with the
+    sendto/recvfrom shape of the UDP sockets used elsewhere in this driver"""
+
+    def __init__(self, net, ns, ifname, mac):
+        net.enter(ns)
+        try:
+            self.s = socket.socket(socket.AF_PACKET, socket.SOCK_RAW, socket.htons(ETH_P_1588))
+            self.s.bind((ifname, ETH_P_1588))
+            idx = socket.if_nametoindex(ifname)
+            # PACKET_ADD_MEMBERSHIP, PACKET_MR_MULTICAST for the PTP primary group
+            mreq = struct.pack("iHH8s", idx, 0, 6, PTP_MAC + b"\0\0")
+            self.s.setsockopt(263, 1, mreq)
+            self.s.setblocking(False)
+        finally:
+            net.leave()
+        self.mac = mac
+
+    def sendto(self, data, _addr=None):
+        self.s.send(PTP_MAC + self.mac + struct.pack(">H", ETH_P_1588) + data)
+
+    def recvfrom(self, n):
+        frame, addr = self.s.recvfrom(n + 14)
+        if addr[2] == socket.PACKET_OUTGOING:
+            raise BlockingIOError
+        return frame[14:], (frame[6:12].hex(), 0)
+
+    def close(self):
+        self.s.close()
+
+
 # ----------------------------------------------------------------------------------------------
 # a small independent PTP codec (Announce + TLVs; header of everything)
 
@@ -219,7 +254,7 @@ def drain(sock, sink, want_type=None):
 # daemons
 
 class Daemon:
-    def __init__(self, net, ns, name, workdir, binary, identity, priority1, ports, path_trace=True, slave_only=False, log_announce=-2, receipt_timeout=3):
+    def __init__(self, net, ns, name, workdir, binary, identity, priority1, ports, path_trace=True, slave_only=False, log_announce=-2, receipt_timeout=3, network_mode="ipv4"):
         self.name = name
         self.identity = identity
         self.sock_path = os.path.join(workdir, f"{name}.sock")
@@ -228,7 +263,7 @@ class Daemon:
                f"path-trace = {'true' if path_trace else 'false'}", f"slave-only = {'true' if slave_only else 'false'}",
                "[observability]", f'observation-path = "{self.sock_path}"']
         for ifc in ports:
-            cfg += ["[[port]]", f'interface = "{ifc}"', 'network-mode = "ipv4"', 'hardware-clock = "none"', f"announce-interval = {log_announce}",
+            cfg += ["[[port]]", f'interface = "{ifc}"', f'network-mode = "{network_mode}"', 'hardware-clock = "none"', f"announce-interval = {log_announce}",
                     "sync-interval = -2", "delay-interval = -2", f"announce-receipt-timeout = {receipt_timeout}"]
         self.cfg_path = os.path.join(workdir, f"{name}.toml")
         with open(self.cfg_path, "w") as f:
@@ -678,7 +713,7 @@ PROPAGATING = [0x4000, 0x4001, 0x0009, 0x7F00, 0x5123]
 NON_PROPAGATING = [0x0003, 0x8000, 0x8008, 0x2004, 0x0001]
 
 
-def scenario_bc(rep, prop, binary, workdir, seed, deadline, n_rounds):
+def scenario_bc(rep, prop, binary, workdir, seed, deadline, n_rounds, mode="ipv4"):
     rng = random.Random(seed)
     net = Net("b")
     daemons = []
@@ -693,16 +728,22 @@ def scenario_bc(rep, prop, binary, workdir, seed, deadline, n_rounds):
         for ns, ifc in ((nsp, "p0"), (nsb, "b0"), (nsb, "b1"), (nss, "s0")):
             net.up(ns, ifc)
         time.sleep(0.5)
-        tx = mc_socket(net, nsp, "p0", "10.97.1.1", 320)
-        tx_ev = mc_socket(net, nsp, "p0", "10.97.1.1", 319)
-        rx = mc_socket(net, nss, "s0", "10.97.2.1", 320)
+        if mode == "ethernet":
+            tx = EthSock(net, nsp, "p0", bytes.fromhex("001122334201"))
+            tx_ev = EthSock(net, nsp, "p0", bytes.fromhex("001122334201"))
+            rx = EthSock(net, nss, "s0", bytes.fromhex("001122334204"))
+        else:
+            tx = mc_socket(net, nsp, "p0", "10.97.1.1", 320)
+            tx_ev = mc_socket(net, nsp, "p0", "10.97.1.1", 319)
+            rx = mc_socket(net, nss, "s0", "10.97.2.1", 320)
+        rep.label(f"bc|{mode}")
         BC = bytes([0, 0xFF, 0xFF, 0xFF, 0xFF, 0xFF, 0xFF, 0xBC])
         P = bytes([0x50, 0, 0, 0, 0, 0, 0, 0x01])
         G = bytes([0x47, 0, 0, 0, 0, 0, 0, 0x02])
         Q = bytes([0x51, 0, 0, 0, 0, 0, 0, 0x03])
         # receipt timeout 8 x 250 ms x (1..2): scheduling hiccups of this driver on a loaded machine must
         # not make the slave port time out in the middle of a phase
-        bc = Daemon(net, nsb, "bc", workdir, binary, BC, 128, ["b0", "b1"], path_trace=True, log_announce=-2, receipt_timeout=8)
+        bc = Daemon(net, nsb, "bc", workdir, binary, BC, 128, ["b0", "b1"], path_trace=True, log_announce=-2, receipt_timeout=8, network_mode=mode)
         daemons.append(bc)
         path_p = [G, P]
         seq = rng.randrange(0, 65536)
@@ -815,7 +856,7 @@ def scenario_bc(rep, prop, binary, workdir, seed, deadline, n_rounds):
                 kind = "reordered"
             else:
                 kind = "altered"
-            rep.violation(f"{prop}|daemon|bc-forward|{kind}", f"{len(sent_prop)} propagating TLVs sent by the parent, {len(fwd_ok)} forwarded: missing {missing[:5]}, duplicated {dup[:5]}, extra {extra[:5]}")
+            rep.violation(f"{prop}|daemon|bc-forward|{kind}" + ("" if mode == "ipv4" else f"|{mode}"), f"{len(sent_prop)} propagating TLVs sent by the parent, {len(fwd_ok)} forwarded: missing {missing[:5]}, duplicated {dup[:5]}, extra {extra[:5]}")
         # loop phase: every other Announce of the parent carries a path that contains the boundary
         # clock itself, and changed contents; the regular ones in between keep the port slave of it
         got.clear()
@@ -887,7 +928,9 @@ def main():
                 if a.scenario == "segment":
                     scenario_segment(rep, a.property, a.binary, workdir, a.seed * 1000 + k, deadline=30.0)
                 else:
-                    scenario_bc(rep, a.property, a.binary, workdir, a.seed * 1000 + k, deadline=60.0, n_rounds=24 if a.tier == "quick" else 80)
+                    scenario_bc(rep, a.property, a.binary, workdir, a.seed * 1000 + k, deadline=60.0, n_rounds=24 if a.tier == "quick" else 80, mode="ipv4")
+                    if not rep.r["findings"]:
+                        scenario_bc(rep, a.property, a.binary, workdir, a.seed * 1000 + k + 500, deadline=60.0, n_rounds=24 if a.tier == "quick" else 80, mode="ethernet")
                 if rep.r["findings"]:
                     # keep the logs of a failing run next to the report
                     keep = a.out + ".logs"
